@@ -199,7 +199,10 @@ impl TransformerContext {
 
         // TODO: move following to element::bbox() ?
         if el.name == "use" || el.name == "reuse" {
-            // assumes el has already had position & attributes resolved
+            if el.has_unresolved_geometry() {
+                // registered but not yet positioned; see SvgElement::bbox_raw()
+                return Err(SvgdxError::MissingBoundingBox(el.to_string()));
+            }
             let translate_x = el.get_attr("x");
             let translate_y = el.get_attr("y");
             if translate_x.is_some() || translate_y.is_some() {
